@@ -7,6 +7,7 @@ import (
 	"regexp"
 	"strconv"
 	"strings"
+	"sync"
 	"time"
 
 	"mc/explore"
@@ -63,7 +64,7 @@ func runC19(ctx *Ctx) {
 	if ctx.Thorough {
 		vectors = append(vectors, [5]int{3, 3, 3, 3, 3}, [5]int{3, 1, 1, 0, 2}, [5]int{3, 0, 0, 0, 0}, [5]int{2, 2, 2, 0, 0}, [5]int{2, 2, 0, 2, 0})
 	}
-	kinds := []string{"close", "garbage-ff", "garbage-00", "truncated"}
+	kinds := []string{"close", "garbage-ff", "garbage-00", "truncated", "garbage-2047", "garbage-2048", "garbage-4096", "bad-choice", "bad-length"}
 	_, acfg := n2config(explore.Replay(nil))
 	type job struct {
 		v    [5]int
@@ -93,16 +94,22 @@ func runC19(ctx *Ctx) {
 		}
 	}
 	r.Set("fault_points", len(jobs))
+	var hmu sync.Mutex
+	hist := map[string]int{} // "<kind> -> <outcome class>": how often each kind was consumed / never consumed / out of scope
 	ParallelFor(r, len(jobs), func(l *report.Local, i int) {
 		j := jobs[i]
 		emu := n2.DefaultEmuConfig()
 		emu.Reg, emu.Pdu, emu.Svc, emu.Rel, emu.Dereg = j.v[0], j.v[1], j.v[2], j.v[3], j.v[4]
 		a := refamf.New(acfg, refamf.DefaultChoices(), codec)
-		res := n2.Run(n2.Opts{YAML: emu.YAML(), AMF: a, Strace: true, Fault: &n2.Fault{K: j.k, Kind: j.kind}, Horizon: 30 * time.Second, KeepGoing: true})
+		res := n2.Run(n2.Opts{YAML: emu.YAML(), AMF: a, Strace: true, Fault: &n2.Fault{K: j.k, Kind: j.kind, Data: c19faulty(j.kind, faultFree[j.v].Down[j.k-1])}, Horizon: 30 * time.Second, KeepGoing: true})
 		cs := fmt.Sprintf("counts=%v fault at downlink message %d (%s): %s", j.v, j.k, c19msgName(codec, faultFree[j.v].Down[j.k-1]), j.kind)
 		out := c19judge(r, codec, cs, j.kind, faultFree[j.v].Down[j.k-1], res)
 		l.Case(cs, true, out)
+		hmu.Lock()
+		hist[j.kind+" -> "+out]++
+		hmu.Unlock()
 	})
+	r.Set("outcomes_by_fault_kind", hist)
 	r.Sample("counts=[1 1 1 1 1] fault at downlink message 3 (DownlinkNASTransport): close -> the emulator's recvmsg returns 0; exit status must be non-zero, no banner, no sendmsg afterwards")
 	r.Sample("counts=[2 2 2 2 2] fault at downlink message 16 (PDUSessionResourceReleaseCommand): garbage-ff -> consumed (if at all) by a later deregistration read")
 	// real-time fidelity of the time shim: replay fixed conversations with the real sleeps and require identical histories
@@ -123,10 +130,46 @@ func runC19(ctx *Ctx) {
 			r.Set(fmt.Sprintf("traces_validated_realtime_%v", v), same)
 		}
 	}
-	r.Rule = fmt.Sprintf("for %d count vectors, every downlink message index k of the fault-free conversation (K = 6..19) x {AMF closes instead of sending message k; sends ff ff ff; sends 00; sends the first half of the message} = %d fault points, each run as the real process under strace (sendmsg/recvmsg on the N2 descriptor = ground truth of what the emulator consumed and sent); "+
-		"oracle: the process terminates within a 30 s horizon; if a recvmsg returned 0 / an error / the faulty octets, or a sendmsg failed (the emulator observed the fault), then exit status != 0, no completion banner and no sendmsg afterwards; exit 0 only if the faulty message was never consumed; the message after Registration Complete is exempt for the garbage kinds (deliberately ignored); truncated messages that still decode are out of scope; non-trivial = all; distinct = (vector, k, kind)", len(vectors), len(jobs))
+	r.Rule = fmt.Sprintf("for %d count vectors, every downlink message index k of the fault-free conversation (K = 6..19) x {AMF closes instead of sending message k; sends ff ff ff; sends 00; sends the first half of the message; sends 2047 / 2048 / 4096 octets of ff (just below, at and above the emulator's read buffer); sends the message with its PDU choice index destroyed; with its outer length determinant pointing beyond the end} = %d fault points, each run as the real process under strace (sendmsg/recvmsg on the N2 descriptor = ground truth of what the emulator consumed and sent); "+
+		"oracle: the process terminates within a 30 s horizon; if a recvmsg returned 0 / an error / the faulty octets, or a sendmsg failed (the emulator observed the fault), then exit status != 0, no completion banner and no sendmsg afterwards; exit 0 only if the faulty message was never consumed; the message after Registration Complete is exempt for the garbage kinds (deliberately ignored); faulty octets that the reference codec still decodes are out of scope; non-trivial = all; distinct = (vector, k, kind)", len(vectors), len(jobs))
 	r.Assume("strace -f is the monitor (ptrace available in the sandbox)", "test mode reports no sessions (only traffic mode prints them): 'reports a session it did not obtain' has nothing to observe here",
 		"time shim as in C01; thorough replays two conversations with real sleeps and requires byte-identical uplink histories")
+}
+
+// c19faulty: the octets the AMF sends instead of message orig for a fault kind (nil for "close"). All are meant to be
+// undecodable as NGAP (checked with the reference codec before a verdict): short garbage, garbage just below, at and
+// above the emulator's 2048-octet read buffer, half a message, and a valid message with its PDU choice index or its
+// outer length determinant destroyed.
+func c19faulty(kind string, orig []byte) []byte {
+	fill := func(n int) []byte { return bytes.Repeat([]byte{0xff}, n) }
+	switch kind {
+	case "garbage-ff":
+		return fill(3)
+	case "garbage-00":
+		return []byte{0x00}
+	case "truncated":
+		return append([]byte{}, orig[:len(orig)/2]...)
+	case "garbage-2047":
+		return fill(2047)
+	case "garbage-2048":
+		return fill(2048)
+	case "garbage-4096":
+		return fill(4096)
+	case "bad-choice":
+		b := append([]byte{}, orig...)
+		b[0] = 0x60 // NGAP-PDU choice index 3 of 0..2
+		return b
+	case "bad-length":
+		b := append([]byte{}, orig...)
+		if len(b) > 3 {
+			b[3] = 0x7f // outer open-type length beyond what follows (messages here are shorter than 127+4 octets or use the two-octet form)
+			if orig[3]&0x80 != 0 && len(b) > 4 {
+				b[3], b[4] = 0xbf, 0xff
+			}
+		}
+		return b
+	}
+	return nil
 }
 
 func c19msgName(c *refper.Codec, b []byte) string {
@@ -149,16 +192,10 @@ func c19judge(r *report.Report, codec *refper.Codec, cs, kind string, orig []byt
 		r.Violate("fail-stop/hang/"+kind, cs, fmt.Sprintf("the emulator did not terminate within the horizon (%d uplink messages seen); output tail: %s", len(res.Up), tail(res.Stdout, 300)), nil)
 		return "hang"
 	}
-	var faulty []byte
-	switch kind {
-	case "garbage-ff":
-		faulty = []byte{0xff, 0xff, 0xff}
-	case "garbage-00":
-		faulty = []byte{0x00}
-	case "truncated":
-		faulty = orig[:len(orig)/2]
+	faulty := c19faulty(kind, orig)
+	if faulty != nil {
 		if _, err := codec.Decode("NGAPPDU", refper.PDUTag, faulty); err == nil {
-			return "out-of-scope:truncated-still-decodes"
+			return "out-of-scope:" + kind + "-still-decodes"
 		}
 	}
 	ev := parseStrace(res.StraceLog)
@@ -169,7 +206,8 @@ func c19judge(r *report.Report, codec *refper.Codec, cs, kind string, orig []byt
 			if kind == "close" && e.errn != "EAGAIN" && e.errn != "EINTR" {
 				observedAt = i
 			}
-		case e.call == "recvmsg" && faulty != nil && bytes.Equal(e.data, faulty):
+		case e.call == "recvmsg" && faulty != nil && len(e.data) > 0 && (bytes.Equal(e.data, faulty) || (len(e.data) >= 2048 && bytes.HasPrefix(faulty, e.data))):
+			// (a datagram longer than the emulator's 2048-octet buffer is cut to the buffer size by the read)
 			observedAt = i
 		case e.call == "sendmsg" && e.ret < 0 && e.errn != "EAGAIN" && e.errn != "EINTR" && e.errn != "EBADF":
 			observedAt = i
